@@ -18,7 +18,7 @@ from vf.core import Machinery
 from vf.props import c10
 
 INVS = ['WindowIsRecent', 'StoredOnlyParticipants']
-TOG = dict(SlideOldest=True, StoreParticipantsOnly=True, SkipEmptyClusters=True)
+TOG = dict(SlideOldest=True, StoreParticipantsOnly=True, SkipEmptyClusters=True, EvalReadOnly=True)
 
 
 def history(ctx, fedjax, rng, nrounds, window, nclusters, allow_empty_domain):
@@ -49,7 +49,30 @@ def history(ctx, fedjax, rng, nrounds, window, nclusters, allow_empty_domain):
   s_agn, s_apfl, s_hyp = agn_init(p0), apfl_init(p0), hyp_init(p0)
   events = []
   notes = []
+  # APFL's evaluation function on the same quadratic problem (metric: mean of 1/2 |w - x|^2)
+  from fedjax.algorithms import apfl as apfl_mod  # pylint: disable=g-import-not-at-top
+  import jax.numpy as jnp  # pylint: disable=g-import-not-at-top
+
+  class SqErr(fedjax.metrics.Metric):
+
+    def zero(self):
+      return fedjax.metrics.MeanStat.new(0., 0.)
+
+    def evaluate_example(self, example, prediction):
+      return fedjax.metrics.MeanStat.new(0.5 * jnp.sum(prediction ** 2), 1.)
+
+  eval_model = fedjax.Model(init=lambda k: p0, apply_for_train=lambda p, b, k: island._flat(p)[None, :] - b['x'],
+                            apply_for_eval=lambda p, b: island._flat(p)[None, :] - b['x'], train_loss=lambda b, out: 0.5 * jnp.sum(out ** 2, axis=1),
+                            eval_metrics={'sq': SqErr()})
+  apfl_eval = apfl_mod.eval_adaptive_personalized_federated_learning(eval_model, fedjax.PaddedBatchHParams(batch_size=3))
   for r in range(nrounds):
+    if r % 2 == 1 or r == 0:
+      # evaluation between rounds, on clients that may never have trained: reads the table, changes nothing
+      who = sorted(rng.sample(range(1, ncl + 1), rng.randint(1, ncl)))
+      res = list(apfl_eval(s_apfl, [(ids[c - 1], dss[c - 1]) for c in who]))
+      fin = all(np.all(np.isfinite(np.asarray(v))) for _, m in res for v in jax.tree_util.tree_leaves(m))
+      events.append({'e': 'Eval', 'who': who, 'stored': sorted(ids.index(cid) + 1 for cid in s_apfl.client_states),
+                     'finite': bool(fin and len(res) == len(who))})
     k = rng.randint(1, ncl)
     cohort = sorted(rng.sample(range(1, ncl + 1), k))
     if sum(sizes[c - 1] for c in cohort) == 0:
@@ -114,11 +137,12 @@ def run(ctx):
                   invariants=INVS, properties=['OnlyOwnClustersUpdated'])
   ctx.model_check('AlgHistory', name='AlgHistory_M_w3', constants=dict(NumDomains=2, W=3, NumClients=2, NumClusters=1, MaxRounds=4, MaxCount=1, **TOG),
                   invariants=INVS, properties=['OnlyOwnClustersUpdated'])
-  for tog, inv in (('SlideOldest', 'WindowIsRecent'), ('StoreParticipantsOnly', 'StoredOnlyParticipants'), ('SkipEmptyClusters', 'OnlyOwnClustersUpdated')):
+  for tog, inv in (('SlideOldest', 'WindowIsRecent'), ('StoreParticipantsOnly', 'StoredOnlyParticipants'), ('SkipEmptyClusters', 'OnlyOwnClustersUpdated'),
+                   ('EvalReadOnly', 'StoredOnlyParticipants')):
     c = dict(NumDomains=2, W=2, NumClients=2, NumClusters=2, MaxRounds=3, MaxCount=1, **TOG)
     c[tog] = False
     ctx.model_check('AlgHistory', expect=inv, name=f'AlgHistory_ctl_{tog}', constants=c, invariants=INVS, properties=['OnlyOwnClustersUpdated'], coverage=False)
-  ctx.require_actions(['Round'])
+  ctx.require_actions(['Round', 'Evaluate'])
 
   # ---- leg T: real histories
   trs = []
@@ -231,22 +255,32 @@ def run(ctx):
           'adam': lambda: fedjax.optimizers.adam(0.125), 'adagrad': lambda: fedjax.optimizers.adagrad(0.5)}[name]
     params = {'dense': {'w': jnp.array(nprng.randn(2, 3), jnp.float32), 'b': jnp.array(nprng.randn(3), jnp.float32)},
               'frozen': {'w': jnp.array(nprng.randn(4), jnp.float32), 'b': jnp.array(nprng.randn(1), jnp.float32)}}
-    frozen = [('frozen', 'w'), ('dense', 'b')]
-    opt = fedjax.optimizers.ignore_grads_haiku(mk(), frozen)
-    base = mk()
-    sub = {'dense': {'w': params['dense']['w']}, 'frozen': {'b': params['frozen']['b']}}
-    st, bst = opt.init(params), base.init(sub)
-    p, q = params, sub
-    for step in range(3):
-      g = jax.tree_util.tree_map(lambda x: jnp.array(nprng.randn(*x.shape), jnp.float32), params)
-      st, p = opt.apply(g, st, p)
-      bst, q = base.apply({'dense': {'w': g['dense']['w']}, 'frozen': {'b': g['frozen']['b']}}, bst, q)
-      for (mod, nm) in frozen:
-        ev.append({'e': 'Call', 'key': f'ignore_grads({name}): frozen leaf {mod}/{nm}', 'out': ex(np.asarray(p[mod][nm]))})
-        ev.append({'e': 'Call', 'key': f'ignore_grads({name}): frozen leaf {mod}/{nm}', 'out': ex(np.asarray(params[mod][nm]))})
-      for (mod, nm) in (('dense', 'w'), ('frozen', 'b')):
-        ev.append({'e': 'Call', 'key': f'ignore_grads({name}): trainable leaf {mod}/{nm} after step {step + 1}', 'out': tol(np.asarray(p[mod][nm]))})
-        ev.append({'e': 'Call', 'key': f'ignore_grads({name}): trainable leaf {mod}/{nm} after step {step + 1}', 'out': tol(np.asarray(q[mod][nm]))})
+    # one or several ignored entries per module, a whole module ignored, nothing ignored
+    for fi, frozen in enumerate(([('frozen', 'w'), ('dense', 'b')], [('frozen', 'w'), ('frozen', 'b'), ('dense', 'b')],
+                                 [('dense', 'w'), ('dense', 'b')], [])):
+      trainable = [(m, n) for m in params for n in params[m] if (m, n) not in frozen]
+
+      def restrict(tree, trainable=trainable):
+        out = {}
+        for m, n in trainable:
+          out.setdefault(m, {})[n] = tree[m][n]
+        return out
+
+      opt = fedjax.optimizers.ignore_grads_haiku(mk(), frozen)
+      base = mk()
+      sub = restrict(params)
+      st, bst = opt.init(params), base.init(sub)
+      p, q = params, sub
+      for step in range(3):
+        g = jax.tree_util.tree_map(lambda x: jnp.array(nprng.randn(*x.shape), jnp.float32), params)
+        st, p = opt.apply(g, st, p)
+        bst, q = base.apply(restrict(g), bst, q)
+        for (mod, nm) in frozen:
+          ev.append({'e': 'Call', 'key': f'ignore_grads({name}, set {fi}): frozen leaf {mod}/{nm}', 'out': ex(np.asarray(p[mod][nm]))})
+          ev.append({'e': 'Call', 'key': f'ignore_grads({name}, set {fi}): frozen leaf {mod}/{nm}', 'out': ex(np.asarray(params[mod][nm]))})
+        for (mod, nm) in trainable:
+          ev.append({'e': 'Call', 'key': f'ignore_grads({name}, set {fi}): trainable leaf {mod}/{nm} after step {step + 1}', 'out': tol(np.asarray(p[mod][nm]))})
+          ev.append({'e': 'Call', 'key': f'ignore_grads({name}, set {fi}): trainable leaf {mod}/{nm} after step {step + 1}', 'out': tol(np.asarray(q[mod][nm]))})
     ctx.case(key=('ignore_grads', name), nontrivial=True)
   vs, _ = vtraces.validate_batch(ctx, 'PureHistory', [{'events': ev}], {}, 'PH')
   v = vs[0]
